@@ -454,10 +454,12 @@ def s8(ctx, rep):
             thr = a[2]
     okt = thr is not None
     if okt:
+        # the values the threshold can take: one definition (possibly a conditional expression), or one per arm of an if/else
         tdn = [d for d in local_defs(f, thr) if not isinstance(d, tuple)]
-        td = [U(d) for d in tdn]
-        okt = len(td) == 1 and (td[0] == "self.n_workers" or (
-            isinstance(tdn[0], ast.IfExp) and {U(tdn[0].body), U(tdn[0].orelse)} == {"self.n_workers", "1"}))
+        vals = set()
+        for d in tdn:
+            vals |= {U(d.body), U(d.orelse)} if isinstance(d, ast.IfExp) else {U(d)}
+        okt = bool(tdn) and len(tdn) == len(local_defs(f, thr)) and (vals == {"self.n_workers"} or vals == {"self.n_workers", "1"})
     rep.put(okt, "S8", "guarded_by", "Tuner._schedule_new_tasks: scheduling only when busy < threshold ∈ {n_workers, 1}", f, loops[0].ast,
             f"{busy} < {thr}", "new trials can be started although the number of busy workers is not below the threshold: "
             "more than n_workers trials occupy workers")
